@@ -476,6 +476,12 @@ def run(ctx):
     ctx.model_check("s3/S3Prep.tla", "S3Prep.cfg", timeout=300, label="S3Prep (attempt history, unconditional reset)")
     ctx.model_check("s3/S3Prep.tla", "S3Prep_conditional.cfg", expect_violation="OwnUploadOnly", timeout=300,
                     label="S3Prep/conditional reset (counterexample expected: the model shows why the reset is load-bearing)")
+    # ... and for ANY number of attempts: IndInv (spec/s3/S3PrepInd.tla) holds initially, is preserved by every step, and implies the properties
+    ctx.apalache("s3/S3PrepInd.tla", init="IndInit", inv="IndInv", length=1, label="S3PrepInd inductive step (unbounded attempts)")
+    if not q:
+        ctx.apalache("s3/S3PrepInd.tla", init="Init", inv="IndInv", length=0, label="S3PrepInd base case")
+        ctx.apalache("s3/S3PrepInd.tla", init="IndInit", inv="OwnUploadOnly", length=0, label="S3PrepInd invariant implies OwnUploadOnly")
+        ctx.apalache("s3/S3PrepInd.tla", init="IndInit", inv="AtMostOnePerAttempt", length=0, label="S3PrepInd invariant implies AtMostOnePerAttempt")
     ctx.model_check("s3/MC_S3.tla", "MC_S3_local2_asfound.cfg", expect_violation="NoWriterFails", timeout=300,
                     label="MC_S3/local2 as found (no re-check under the lock)")
     events = ctx.pmap(replay_schedule, cases, procs=16)
